@@ -106,6 +106,7 @@ RULES = {
     "NONDET": _mod("rules2", "rule_nondet"),
     "RELAX-AGREE": _mod("bfm", "rule_relax_agree"),
     "FW-SHAPE": _mod("relax", "rule_fw_shape"),
+    "DM-QUERIES": _mod("relax", "rule_dm_queries"),
     "LAYOUT": _mod("relax", "rule_layout"),
     "TERMINATE": _mod("relax", "rule_terminate"),
     "CONC": _mod("conc", "rule_conc", None),
@@ -270,11 +271,16 @@ PROPERTY_RULES = {
         "assumptions": COMMON_ASSUMPTIONS,
     },
     "C18": {
-        "rules": ["LAYOUT"],
-        "explanation": "Only layout and fill: (u, v) is addressed as dist[u*order+v] in Index/IndexMut, rows are "
-                       "dist.chunks(order), new() allocates a checked order*order cells and writes `infinity` to every one.",
+        "rules": ["LAYOUT", "DM-QUERIES"],
+        "explanation": "Layout and fill: (u, v) is addressed as dist[u*order+v] in Index/IndexMut, rows are "
+                       "dist.chunks(order), new() allocates a checked order*order cells and writes `infinity` to every one. "
+                       "Full scans: eccentricities maps every row of dist.chunks(order) to row.iter().max().unwrap_or(&infinity), "
+                       "diameter is max over eccentricities() (unwrap_or(&infinity)), is_connected is all(e != infinity) over "
+                       "eccentricities(); none of the three (nor a closure of theirs) contains a restricting adaptor (skip, take, "
+                       "step_by, filter, find, ...) or a sub-slice, so every cell can influence the result.",
         "trusted_base": TB,
-        "not_decided": "eccentricity / diameter / center / periphery / is_connected values",
+        "not_decided": "center / periphery values and the comparison semantics of W; a query rewritten away from eccentricities() "
+                       "without restricting adaptors is reported as not decided",
         "assumptions": COMMON_ASSUMPTIONS,
     },
     "C19": {
